@@ -32,7 +32,7 @@ def check_config(cfg, w, rep):
     for e in w.inv.effects:
         if not e.mutating:
             continue
-        if e.kind in ("Unmodelled", "CreateTempGlobal", "Chdir", "WriteFile", "Rename", "SetPerm", "HandleMut", "TempEscape"):
+        if e.kind in ("Unmodelled", "CreateTempGlobal", "Chdir", "WriteFile", "Rename", "SetPerm", "TempEscape"):
             lf = effect_fn(w, e)
             rep.violation("a-forbidden:%s:%s" % (fn_key(lf), e.kind),
                           "`%s` uses %s (%s), which is %s" % (
